@@ -108,3 +108,31 @@ package blockchain
 //@   assigns backendStoreErr, calls_BackendFinalise, arg_BackendFinalise_block, arg_BackendFinalise_stateUpdate, arg_BackendFinalise_newClasses, arg_BackendFinalise_sign
 //@   ensures one_transaction: calls_BackendFinalise == old(calls_BackendFinalise) + 1 && result == backendStoreErr
 //@   ensures nothing_outside_it: calls_WriteL1Msgs == old(calls_WriteL1Msgs) && calls_WriteBlockHeader == old(calls_WriteBlockHeader) && calls_WriteTxs == old(calls_WriteTxs) && calls_WriteStateUpdate == old(calls_WriteStateUpdate) && calls_WriteCommitment == old(calls_WriteCommitment) && calls_WriteChainHeight == old(calls_WriteChainHeight)
+
+// ---- a block passes the sanity checks only if every check passed (C06) ----------------------------
+// SanityCheckNewHeight hands out commitments - the ticket sync needs to store the block - only when
+// the block and the state update agree on hash and state root, every declared class hashes to its
+// key, and the block hash was recomputed from the block's contents and matched; the commitments
+// are the ones that recomputation produced.
+//@ ghost var classHashesErr error
+//@ ghost var blockHashErr error
+//@ ghost var blockHashCommitments *core.BlockCommitments
+//@ extern func github.com/NethermindEth/juno/core.VerifyClassHashes
+//@   logged as VerifyClassHashes
+//@   sets classHashesErr = result
+//@ extern func github.com/NethermindEth/juno/blockchain/statebackend.StateBackend.VerifyBlockHash
+//@   logged as BackendVerifyBlockHash
+//@   sets blockHashCommitments = result0
+//@   sets blockHashErr = result1
+//@ extern func github.com/NethermindEth/juno/core/felt.(*Felt).Equal
+//@   ensures result <==> (*z == *x)
+//@ extern func errors.New
+//@   ensures result != nil
+//@ func (*Blockchain).SanityCheckNewHeight
+//@   props C06
+//@   arith int
+//@   nosafe
+//@   assigns classHashesErr, blockHashErr, blockHashCommitments, calls_VerifyClassHashes, arg_VerifyClassHashes_classes, calls_BackendVerifyBlockHash, arg_BackendVerifyBlockHash_b, arg_BackendVerifyBlockHash_stateDiff
+//@   ensures consistent_with_state_update: result1 == nil ==> *block.Hash == *stateUpdate.BlockHash && *block.GlobalStateRoot == *stateUpdate.NewRoot
+//@   ensures classes_verified: result1 == nil ==> calls_VerifyClassHashes == old(calls_VerifyClassHashes) + 1 && classHashesErr == nil && arg_VerifyClassHashes_classes == newClasses
+//@   ensures hash_recomputed: result1 == nil ==> calls_BackendVerifyBlockHash == old(calls_BackendVerifyBlockHash) + 1 && blockHashErr == nil && arg_BackendVerifyBlockHash_b == block && arg_BackendVerifyBlockHash_stateDiff == stateUpdate.StateDiff && result0 == blockHashCommitments
